@@ -133,6 +133,7 @@ func init() {
 		c18ClearAfterDone(c)
 		c18ErrorFirst(c)
 		c18DeleteAfterIngest(c)
+		c18CommitEveryBatch(c)
 		// validation-first
 		if f := p.Func("migration", "", "NewRunner"); f != nil {
 			k := 0
@@ -492,4 +493,50 @@ func c18DeleteAfterIngest(c *Ctx) {
 	_ = okErr
 	_ = miss
 	c.check(okAfter, "delete-after-ingest", "ingestBlockRange: deleteOldBlockRangeData", p.Pos(del.Pos()), "queued after the per-block loop completed", "the old-layout range deletion is queued before the blocks of the range are ingested: when a block fails mid-range the flushed partial batch deletes old entries of blocks that were never converted, and they end up in neither layout")
+}
+
+
+// c18CommitEveryBatch: a batch handed to the block-transactions committer is written on every path that reports success.
+// Its content is not only transactions: ranges of empty blocks put empty BlockTransactions entries (and old-layout range
+// deletes) into it, so "no transactions" does not mean "nothing to persist" (seeded change C18-H). The only accepted reason
+// to skip the write is an empty batch (batch.Size() == 0).
+func c18CommitEveryBatch(c *Ctx) {
+	p := c.P
+	f := p.Func("migration/blocktransactions", "committer", "Run")
+	if f == nil {
+		c.und("commit-every-batch", "committer.Run", "", "anchor not found")
+		return
+	}
+	pass := map[*ssa.BasicBlock]bool{}
+	for _, ds := range p.deepSites(f, func(s Site) bool {
+		return s.Method != nil && s.Method.Name() == "Write" && strings.HasSuffix(typeShort(s.Recv.Type()), "db.Batch")
+	}, 2) {
+		pass[ds.outer().Block()] = true
+	}
+	if len(pass) == 0 {
+		c.viol("commit-every-batch", "committer.Run", p.Pos(fnPos(f)), "the committer no longer writes the batch it is handed")
+		return
+	}
+	bad := ""
+	seen := map[*ssa.BasicBlock]bool{}
+	q := []*ssa.BasicBlock{f.Blocks[0]}
+	for len(q) > 0 {
+		b := q[0]
+		q = q[1:]
+		if seen[b] || pass[b] {
+			continue
+		}
+		seen[b] = true
+		if exitKind(b) == "return" {
+			ret := b.Instrs[len(b.Instrs)-1].(*ssa.Return)
+			isErr := len(ret.Results) > 0 && !isNilConst(unspill(ret.Results[len(ret.Results)-1], b))
+			d := p.mustHoldAt(ret)
+			empty, _ := everyDisjunctHas(d, []string{".Size() == 0"})
+			if !isErr && !(empty && len(d) > 0) {
+				bad = p.Pos(posOf(ret, f))
+			}
+		}
+		q = append(q, b.Succs...)
+	}
+	c.check(bad == "", "commit-every-batch", "committer.Run", p.Pos(fnPos(f)), "every successful return is preceded by batch.Write() (or the batch is empty)", "the return at "+bad+" reports success without writing the batch: a batch holds more than transactions (entries of empty blocks, deletions of the old layout), which are lost although the migration then reports completion")
 }
